@@ -25,6 +25,8 @@ var nastyRunes = []rune{0, 1, 7, 8, 9, 10, 13, 27, 31, '"', '\\', '/', '<', '>',
 	0xfeff, 0xfffd, 0x1f600, 0x10ffff, 0x4e2d, '\'', ' ', '.', 'a', 'Z', '0'}
 
 // String generates valid UTF-8 biased to the dangerous.
+var nastyPieces = []string{`\u003c`, `\u0026`, `\u0000`, `\n`, `\"`, "\r\n", "\n\r", `\\`, `</script>`, `\ud83d`}
+
 func (g *Gen) String(maxLen int) string {
 	n := 0
 	switch g.IntN(6) {
@@ -39,6 +41,11 @@ func (g *Gen) String(maxLen int) string {
 	for i := 0; i < n; i++ {
 		switch g.IntN(3) {
 		case 0:
+			if g.IntN(12) == 0 {
+				// text that looks like an escape sequence, line ends of both kinds
+				sb.WriteString(nastyPieces[g.IntN(len(nastyPieces))])
+				break
+			}
 			sb.WriteRune(nastyRunes[g.IntN(len(nastyRunes))])
 		case 1:
 			sb.WriteByte(byte('a' + g.IntN(26)))
